@@ -55,3 +55,9 @@ pub assume_specification [String::into_bytes] (s: String) -> (r: Vec<u8>)
     ensures r@ == utf8(s@);
 pub assume_specification [<[u8]>::is_ascii] (s: &[u8]) -> (b: bool)
     ensures b == (forall|i: int| 0 <= i < s@.len() ==> s@[i] < 128);
+// TRUSTED (std): strict UTF-8 validation of a byte slice (same relation as String::from_utf8)
+#[verifier::external_type_specification]
+#[verifier::external_body]
+pub struct ExUtf8Error(std::str::Utf8Error);
+pub assume_specification<'a> [std::str::from_utf8] (v: &'a [u8]) -> (r: Result<&'a str, std::str::Utf8Error>)
+    ensures r matches Ok(s) ==> utf8(s@) == v@, r is Err ==> forall|s: Seq<char>| utf8(s) != v@;
